@@ -62,6 +62,21 @@ def gen_cases(tier, seed):
             yield dict(base, zero_weight=True, R=max(2, base["R"]), printitn=[0, 1][i % 2], cseed=int(seed) * 67867967 + 300000 + next(cs))
     yield from _gen_overfit(tier, seed, cs)
     yield from _gen_single_support(tier, seed, cs)
+    # the small tolerances of the three solvers at the ends of their ranges (exactly zero included), on data with an empty slice and
+    # guesses with a zero row -- where exact zeros of the model meet the guarded divisions
+    rng2 = gen.rng_for(seed + 7, ID, tier)
+    for i in range(36 if tier == "quick" else 240):
+        N = int(rng2.integers(2, 4))
+        shape = [int(s) for s in rng2.integers(2, 5, size=N)]
+        alg = ["mu", "pdnr", "pqnr"][i % 3]
+        tol = {"kappatol": [0.0, 1e-10, 1e-6][(i // 3) % 3]} if alg == "mu" else {"epsActive": [0.0, 1e-8, 1e-5][(i // 3) % 3]}
+        tol["epsDivZero"] = [1e-10, 1e-12, 1e-7][(i // 9) % 3]
+        if alg == "mu":
+            tol["kappa"] = [0.01, 0.0, 0.1][(i // 27) % 3 if tier != "quick" else (i // 9) % 3]
+        yield {"w": "apr", "alg": alg, "rep": ["dense", "sparse"][(i // 3) % 2], "shape": shape, "R": int(rng2.integers(1, 3)), "dseed": int(rng2.integers(0, 2 ** 31)),
+               "empty_slice": bool(i % 2 == 0), "zero_row": bool((i // 2) % 2 == 0), "maxinneriters": int(rng2.choice([3, 10])), "stoptol": 1e-6,
+               "precompinds": bool(rng2.integers(0, 2)), "inexact": bool(rng2.integers(0, 2)), "lbfgsMem": 3, "kappa": tol.pop("kappa", 0.01), "printitn": 0,
+               "stoptime": None, "store": None, "good_guess": False, "tolerances": tol, "cseed": int(seed) * 67867967 + 400000 + next(cs)}
 
 
 def _gen_overfit(tier, seed, cs):
@@ -169,6 +184,9 @@ def run_case(case, ctx):
         opts.update(lbfgsMem=case["lbfgsMem"])
     if alg == "mu":
         opts.update(kappa=case["kappa"])
+    if case.get("tolerances"):
+        opts.update(case["tolerances"])
+        ctx.feat(**{k_: ("0" if v_ == 0 else "default" if v_ in (1e-10, 1e-8) else "other") for k_, v_ in case["tolerances"].items()})
     for mi in case.get("only_maxiters", (1, 2, 3)):
         guess = M0.copy()
         gdig = state_digest(guess)
